@@ -424,29 +424,7 @@ def c05_5(ctx):
             out.append(ctx.err(spec, "dispatch for %s could not be evaluated" % label, fn, mod))
         else:
             out.append(ctx.bad(spec, "a %s input is hashed with %s, expected %s" % (label, got, want), fn, mod, key="dispatch:" + label))
-    # ext_flag from the witness size: the value assigned on each edge of the `len(witness) ? c` test must be [len > 1]
-    ok = False
-    fo = Folder(ctx.repo, mod.name)
-    for n in cfg.tests():
-        r = rl.rel(n.ast, lambda e: "witness" in ast.unparse(e) and "len" in ast.unparse(e), lambda e: isinstance(fo.fold(e), int))
-        if r is None:
-            continue
-        t = n.ast
-        c = fo.fold(t.comparators[0] if isinstance(fo.fold(t.comparators[0]), int) else t.left)
-        # truth of the test for len = 0, 1, 2, 3
-        from sa.interval import cmp_set
-        tset = cmp_set(r, c)
-        vals = {}
-        for b, l in cfg.succ[n.id]:
-            a = cfg.nodes[b].ast
-            if isinstance(a, ast.Assign) and ast.unparse(a.targets[0]) == "ext_flag" and isinstance(fo.fold(a.value), int):
-                vals[l] = fo.fold(a.value)
-        if set(vals) == {True, False}:
-            def flag(k):
-                return vals[not tset.intersect(ISet.point(k)).is_empty()]
-            ok = all(flag(k) == (1 if k > 1 else 0) for k in range(0, 6))
-    out.append(ctx.ok(spec, "p2tr: ext_flag = 1 exactly when the witness has more than one item", fn, mod, key="ext-flag") if ok else
-               ctx.bad(spec, "p2tr: ext_flag is not derived as `len(witness) > 1`", fn, mod, key="ext-flag"))
+    # (the extension flag is decided by C05.11, which also accounts for the annex)
     return out
 
 
@@ -647,6 +625,50 @@ def c05_10(ctx):
                     "spend_type / sha_annex (a key-path spend whose signature starts with 0x50 is hashed as if it had an annex)" % (acc, k), fn, mod, key="annex-domain")]
 
 
+def c05_11(ctx):
+    """Tx.sig_hash chooses the BIP341 extension flag from the witness *after the annex is set aside*: key path (ext_flag 0) when
+    one element is left, script path (ext_flag 1) when two or more are.  Cell evaluation of the dispatch over witnesses of 1..4
+    items with and without an annex-looking last item; the digest functions are stand-ins that return how they were called."""
+    from sa.cells import Evaluator, Obj, Raised, Undecided
+    spec = "tx:Tx.sig_hash"
+    mod, fn = rl.get(ctx, spec)
+    shapes = []
+    for k in range(1, 5):
+        base = [bytes([0x20 + i]) * 4 for i in range(k)]
+        shapes.append(list(base))
+        if k >= 2:
+            shapes.append(base[:-1] + [b"\x50\x01"])
+    bad = None
+    for items in shapes:
+        annex = len(items) >= 2 and items[-1][:1] == b"\x50"
+        want = 1 if len(items) - (1 if annex else 0) >= 2 else 0
+        wit = Obj("witness", "Witness", {"items": list(items)})
+        txin = Obj("tx", "TxIn", {"witness": wit, "script_sig": Obj("script", "Script", {"commands": []})})
+        me = Obj("tx", "Tx", {"tx_ins": [txin], "network": "testnet"})
+        spk = Obj("script", "P2TRScriptPubKey", {"commands": [0x51, bytes(32)]})
+        ev = Evaluator(ctx.repo, method_hooks={
+            ("TxIn", "script_pubkey"): lambda o, *a, **k: spk,
+            ("Tx", "sig_hash_bip341"): lambda o, *a, **k: ("bip341", k.get("ext_flag", a[1] if len(a) > 1 else None)),
+            ("Tx", "sig_hash_bip143"): lambda o, *a, **k: ("bip143",),
+            ("Tx", "sig_hash_legacy"): lambda o, *a, **k: ("legacy",)})
+        ctx.count("cells")
+        try:
+            r = ev.call(spec, [0, 0], self_obj=me)
+        except Undecided as u:
+            return [ctx.err(spec, "taproot dispatch not evaluable: %s" % u, fn, mod)]
+        except Raised as x:
+            bad = (items, annex, "raises %s" % x.name, want)
+            break
+        if r != ("bip341", want):
+            bad = (items, annex, "calls %s" % (r,), want)
+            break
+    if bad:
+        items, annex, what, want = bad
+        return [ctx.bad(spec, "for a taproot witness of %d item(s)%s sig_hash %s; BIP341 uses ext_flag %d (%s path: the annex does not count)" % (
+            len(items), " ending in an annex" if annex else "", what, want, "script" if want else "key"), fn, mod, key="ext-flag-annex")]
+    return [ctx.ok(spec, "ext_flag = 1 exactly when two or more items remain after the annex is set aside (%d witness shapes)" % len(shapes), fn, mod, key="ext-flag-annex")]
+
+
 OBLIGATIONS = [
     ("C05.1", "COUNT", c05_1),
     ("C05.2", "LAYOUT vs spec", c05_2),
@@ -657,5 +679,6 @@ OBLIGATIONS = [
     ("C05.7", "MEMO init", c05_7),
     ("C05.9", "DATAFLOW", c05_9),
     ("C05.10", "RANGE accept-set", c05_10),
+    ("C05.11", "CELLS dispatch", c05_11),
 ]
-FLOORS = {"C05.1": 12, "C05.2": 7, "C05.3": 9, "C05.4": 28, "C05.5": 8}
+FLOORS = {"C05.1": 12, "C05.2": 7, "C05.3": 9, "C05.4": 28, "C05.5": 7, "C05.11": 1}
